@@ -13,12 +13,17 @@ from harness.common import enc
 from harness import c06
 
 PROP = 'C13'
-GENERATORS = ['gen_command', 'gen_cmdstack', 'gen_groups']   # gen_groups: C06.Model (imported by the C13 model) uses Gen_groups
+# gen_groups: C06.Model (imported by the C13 model) uses Gen_groups; gen_combine: the mode functions Gen_commands calls
+GENERATORS = ['gen_command', 'gen_cmdstack', 'gen_groups', 'gen_combine', 'gen_commands']
 TRUSTED = [
     'hand model coq/C13/Model.v of CommandStack.do/undo/redo, AddData, RemoveData, ApplySubsetState/ApplyROI (do and undo) and '
     'EditSubsetMode._combine_data over the C06 model of the data collection (tied by correspondence on the explored sequences)',
     'tools/gen/gen_command.py reads MAX_UNDO and the truncation slice of CommandStack.do from the current source (ast, fail-closed) into coq/gen/Gen_command.v',
     'tools/gen/gen_cmdstack.py translates CommandStack.do/undo/redo statement by statement (fail-closed) into coq/gen/Gen_cmdstack.v; theorem stack_refines_generated ties the model to that text',
+    'tools/gen/gen_commands.py translates, statement by statement (fail-closed), _snapshot_subsets, _restore_subsets, do/undo of AddData, RemoveData, ApplyROI, ApplySubsetState '
+    '(command.py), EditSubsetMode.update/_combine_data/_broadcast/edit_subset (edit_subset_mode.py) and DataCollection.__contains__ into coq/gen/Gen_commands.v over the heap of '
+    'Gen_groups and the mode functions of Gen_combine; C13/GenEquiv*.v prove that these make the steps of the hand model and the theorems are re-stated on them; the translator '
+    'itself, its typing of variables (a command\'s data_collection is the session\'s; every subset is a GroupedSubset) and the checked facts about the surrounding code are trusted',
     'selections are expression trees over atomic states (ElementSubsetState on 4-element datasets); masks of the model are bitwise operations on 4 bits; '
     'numpy evaluation of the real states is the platform',
     'ApplyROI is driven with an apply_func that calls EditSubsetMode.update with the state built from the region (what viewers do); it is the same model command as ApplySubsetState',
@@ -38,24 +43,29 @@ MODES = ['replace', 'and', 'or', 'xor', 'andnot', 'new']
 # cmd: ('add', d) | ('rem', d) | ('apply', e, ov|None, use_roi)
 
 
-def enc_cmd(c):
+def enc_cmd(c, gen=False):
     if c[0] == 'add':
         return (1, [c[1]])
     if c[0] == 'rem':
         return (2, [c[1]])
     ov = (0, []) if c[2] is None else (1, [MODES.index(c[2])])
-    return (3, [c06.enc_expr(c[1]), ov])
+    return (4 if gen and c[3] else 3, [c06.enc_expr(c[1]), ov])
 
 
-def enc_sop(o):
+def enc_sop(o, gen=False):
     if o[0] == 'do':
-        return (1, [enc_cmd(o[1])])
+        return (1, [enc_cmd(o[1], gen)])
     return (2, []) if o[0] == 'undo' else (3, [])
 
 
-def case_line(case, ncolors):
-    return enc((1, [case['pool'], ncolors, MODES.index(case['mode']), (0, [c06.enc_op(o) for o in case['pre']]),
-                    (0, list(case['edit'])), (0, [enc_sop(o) for o in case['ops']])]))
+def case_line(case, ncolors, gen=False):
+    """tag 1: the hand model; tag 2 (gen): the machine made of the functions translated from command.py / edit_subset_mode.py"""
+    return enc((2 if gen else 1, [case['pool'], ncolors, MODES.index(case['mode']), (0, [c06.enc_op(o) for o in case['pre']]),
+                                  (0, list(case['edit'])), (0, [enc_sop(o, gen) for o in case['ops']])]))
+
+
+def both_lines(cases, ncolors):
+    return [case_line(c, ncolors) for c in cases] + [case_line(c, ncolors, gen=True) for c in cases]
 
 
 def cmd_key(c):
@@ -90,6 +100,14 @@ class Impl13:
         self.session.edit_subset_mode.mode = self.mode_fn[case['mode']]
         self.session.edit_subset_mode.edit_subset = [self.im.grps[g] for g in case['edit']]
         self.stack = self.session.command_stack
+        # EditSubsetMessages handed to the hub during a step (compared with the translated setter / _broadcast)
+        from glue.core.hub import HubListener
+        from glue.core.message import EditSubsetMessage
+        self.edit_events = []
+        self.listener = HubListener()
+        self.im.dc.hub.subscribe(self.listener, EditSubsetMessage,
+                                 handler=lambda msg: self.edit_events.append((list(msg.subset), msg.mode)))
+        self.last_cmd = None
         self.cmd_of = {}          # id(command object) -> cmd tuple
         self.keep = []
         # oracle shadow stacks
@@ -100,7 +118,9 @@ class Impl13:
     def make(self, c):
         C = self.command
         dc = self.im.dc
-        if c[0] == 'add':
+        if c[0] == 'add' and c[1] < 0:
+            obj = C.AddData(data='not a dataset')
+        elif c[0] == 'add':
             obj = C.AddData(data=self.im.data(c[1]))
         elif c[0] == 'rem':
             obj = C.RemoveData(data=self.im.data(c[1]))
@@ -131,15 +151,26 @@ class Impl13:
         bad = []
         before = self.obs()
         st = 0
+        self.edit_events = []
+        self.last_cmd = None
         try:
             if o[0] == 'do':
                 self.stack.do(self.make(o[1]))
+                self.last_cmd = self.stack._command_stack[-1]
             elif o[0] == 'undo':
                 self.stack.undo()
+                self.last_cmd = self.stack._undo_stack[-1]
             else:
                 self.stack.redo()
+                self.last_cmd = self.stack._command_stack[-1]
         except IndexError:
             st = 3
+        except TypeError as exc:
+            if o[0] == 'do' and o[1][0] == 'add' and o[1][1] < 0:
+                st = 13              # DataCollection.append refuses what is not a dataset: the documented answer, not a failure of the property
+            else:
+                st = 9
+                bad.append('%s raised %s: %s' % (o[0], type(exc).__name__, str(exc)[:120]))
         except Exception as exc:     # a command that cannot be executed / undone / redone at all
             st = 9
             bad.append('%s raised %s: %s' % (o[0], type(exc).__name__, str(exc)[:120]))
@@ -218,6 +249,17 @@ class Impl13:
             # one entry per group: the common mask of its members (None when it has no member, a tuple when they differ)
             masks.append(None if not ms else (ms.pop() if len(ms) == 1 else tuple(sorted(ms))))
         snap['masks'] = masks
+        rev = {id(f): n for n, f in self.mode_fn.items()}
+        snap['events'] = [(MODES.index(rev[id(m)]) if id(m) in rev else -1, [self.im._gid(g) for g in subs]) for subs, m in self.edit_events]
+        c = self.last_cmd
+        if c is None or status != 0:
+            snap['record'] = None
+        else:
+            snap['record'] = ([(self.im._gid(g), self.im.read_state(st)) for g, st in getattr(c, 'old_groups', {}).items()],
+                              [(self.im._did(sb.data), self.im._gid(getattr(sb, 'group', None)), self.im.read_state(st))
+                               for sb, st in getattr(c, 'old_states', {}).items()],
+                              [self.im._gid(g) for g in getattr(c, 'old_edit_subset', [])],
+                              int(bool(getattr(c, '_added', False))), int(bool(getattr(c, '_removed', False))))
         return snap
 
 
@@ -266,11 +308,39 @@ def model_steps(tree, pool):
     return out
 
 
+def gen_model_steps(tree, pool):
+    """the answer of the translated machine (tag 2): as model_steps, plus the EditSubsetMessages of the step and the record
+    do() left on the command; an observation with a single child is `the command raised` (status 10 + code)"""
+    obs = list(tree[1])
+    raised = None
+    if obs and obs[-1][0] == 0 and len(obs[-1][1]) == 1:
+        raised = obs[-1][1][0][0]
+        obs = obs[:-1]
+    out = model_steps((0, obs), pool)
+    for ob, m in zip(obs, out):
+        if 'error' in m:
+            continue
+        k = ob[1]
+        m['events'] = [(t[0], [x[0] for x in t[1][0][1]]) for t in k[6][1]]
+        r = k[7]
+        if r[0] == 9:
+            m['record'] = None
+        else:
+            rk = r[1]
+            m['record'] = ([(p[1][0][0], c06.tree_to_expr(p[1][1])) for p in rk[0][1]],
+                           [(p[1][0][0], p[1][1][0], c06.tree_to_expr(p[1][2])) for p in rk[1][1]],
+                           [x[0] for x in rk[2][1]], rk[3][0], rk[4][0])
+    if raised is not None:
+        out.append({'raised': raised})
+    return out
+
+
 FIELDS = ('status', 'coll', 'groups', 'dsubs', 'gsubs', 'gattr', 'edit', 'cmds', 'undone')
+GEN_FIELDS = FIELDS + ('events', 'record')
 
 
-def compare(snap, m, n_members):
-    diff = [f for f in FIELDS if snap[f] != m[f]]
+def compare(snap, m, n_members, fields=FIELDS):
+    diff = [f for f in fields if snap[f] != m[f]]
     # masks: the model gives one mask per live group; groups without members have nothing to compare
     mm = [x if n else None for x, n in zip(m['masks_raw'], n_members)]
     if snap['masks'] != mm:
@@ -341,8 +411,35 @@ def nontrivial(case):
     return 'do' in kinds and ('undo' in kinds)
 
 
-def check_case(R, case, mtree, stream):
+def check_generated(R, case, steps, gtree, stream):
+    """the functions translated from command.py / edit_subset_mode.py (run by the extracted model, tag 2) against the same run of the real code"""
+    ms = gen_model_steps(gtree, case['pool'])
+    for i, (sn, _) in enumerate(steps):
+        if i >= len(ms):
+            R.fail('correspondence', dict(case, stream=stream, machine='generated'), {'step': i, 'why': 'translated machine returned %d observations for %d' % (len(ms), len(steps))})
+            return
+        m = ms[i]
+        if 'raised' in m or sn['status'] == 13:
+            if m.get('raised') != sn['status']:
+                R.fail('correspondence', dict(case, ops=case['ops'][:i], stream=stream, machine='generated'),
+                       {'step': i, 'why': 'exception', 'impl_status': sn['status'], 'model': m.get('raised', m.get('status'))})
+            return          # the case ends at the command that raised
+        if 'error' in m:
+            R.fail('correspondence', dict(case, stream=stream, machine='generated'), {'step': i, 'why': 'translated machine could not decode the case'})
+            return
+        n_members = [len(sn['gsubs'][g]) for g in sn['groups']]
+        diff = compare(sn, m, n_members, GEN_FIELDS)
+        if diff:
+            R.fail('correspondence', dict(case, ops=case['ops'][:i], stream=stream, machine='generated'),
+                   {'step': i, 'fields': diff, 'impl': {f: sn.get(f) for f in diff},
+                    'model': {f: (m.get(f) if f != 'masks' else m['masks_raw']) for f in diff}})
+            return
+
+
+def check_case(R, case, mtree, stream, gtree=None):
     steps = run_case_impl(case)
+    if gtree is not None:
+        check_generated(R, case, steps, gtree, stream)
     # oracle
     for i, (sn, bad) in enumerate(steps):
         if bad:
@@ -408,10 +505,11 @@ def stream_exhaustive(R, ncolors):
         k = rng.choice([kmax + 1, kmax + 2, kmax + 3])
         extra.append(dict(cfg, ops=[rng.choice(al) for _ in range(k)]))
     cases += extra
-    outs = R.model([case_line(c, ncolors) for c in cases])
-    for c, mt in zip(cases, outs):
+    outs = R.model(both_lines(cases, ncolors))
+    R._c13_gen = getattr(R, '_c13_gen', 0) + len(cases)
+    for c, mt, gt in zip(cases, outs[:len(cases)], outs[len(cases):]):
         R.count(case_key(c), nontrivial=nontrivial(c), stream='exhaustive', length=len(c['ops']))
-        check_case(R, c, mt, 'exhaustive')
+        check_case(R, c, mt, 'exhaustive', gt)
     R.sample({'exhaustive': cases[len(al) * 3 + 5]})
     R.stream('exhaustive', cases=n_exh, sampled_longer=len(extra), exhaustive=True,
              bound='all sequences of length 1..%d over %d letters (AddData/RemoveData of 2 datasets, 5 selections: ApplySubsetState and ApplyROI, no override / '
@@ -464,10 +562,11 @@ def stream_ladders(R, ncolors):
             for cmds in itertools.product(al, repeat=k):
                 for w in walks:
                     cases.append(dict(cfg, ops=[('do', c) for c in cmds] + w))
-    outs = R.model([case_line(c, ncolors) for c in cases])
-    for c, mt in zip(cases, outs):
+    outs = R.model(both_lines(cases, ncolors))
+    R._c13_gen = getattr(R, '_c13_gen', 0) + len(cases)
+    for c, mt, gt in zip(cases, outs[:len(cases)], outs[len(cases):]):
         R.count(case_key(c), nontrivial=True, stream='ladders', length=len(c['ops']))
-        check_case(R, c, mt, 'ladders')
+        check_case(R, c, mt, 'ladders', gt)
     R.sample({'ladders': cases[len(cases) // 2]})
     R.stream('ladders', cases=len(cases), exhaustive=True,
              bound='do^k for k = 1..%d over %d commands (selection without override, selection with and, ApplyROI with new, AddData, RemoveData) followed by every '
@@ -553,12 +652,13 @@ def stream_random(R, ncolors, max_undo):
     cases = [rand_case(R.subrng('rand', i)) for i in range(n)]
     cases += [rand_case(R.subrng('ladder', i), ladder=True) for i in range(nl)]
     cases += [rand_case(R.subrng('burst', i), burst=True, max_undo=max_undo) for i in range(nb)]
-    outs = R.model([case_line(c, ncolors) for c in cases])
-    for c, mt in zip(cases, outs):
+    outs = R.model(both_lines(cases, ncolors))
+    R._c13_gen = getattr(R, '_c13_gen', 0) + len(cases)
+    for c, mt, gt in zip(cases, outs[:len(cases)], outs[len(cases):]):
         R.count(case_key(c), nontrivial=nontrivial(c), stream='random', length=min(len(c['ops']), 60) // 10 * 10, mode=c['mode'])
         for o in c['ops']:
             R.hist['op_kind'][o[0] if o[0] != 'do' else 'do ' + o[1][0]] += 1
-        check_case(R, c, mt, 'random')
+        check_case(R, c, mt, 'random', gt)
     R.sample({'random': dict(cases[0])})
     R.stream('random', cases=n, ladders=nl, bursts=nb, exhaustive=False,
              bound='pool 1..3 datasets, random prelude (append / new group / remove), random edit choice and session mode, 5..30 steps of do/undo/redo with all '
@@ -572,11 +672,26 @@ def stream_malformed(R, ncolors):
         {'pool': 1, 'mode': 'replace', 'pre': [], 'edit': [], 'ops': [('do', ('add', 0)), ('undo',), ('undo',), ('redo',), ('redo',)]},
         {'pool': 1, 'mode': 'replace', 'pre': [('append', 0)], 'edit': [], 'ops': [('do', ('apply', E1, None, False)), ('redo',), ('undo',), ('undo',)]},
     ]
-    outs = R.model([case_line(c, ncolors) for c in cases])
-    for c, mt in zip(cases, outs):
+    outs = R.model(both_lines(cases, ncolors))
+    R._c13_gen = getattr(R, '_c13_gen', 0) + len(cases)
+    for c, mt, gt in zip(cases, outs[:len(cases)], outs[len(cases):]):
         R.count(case_key(c), nontrivial=False, stream='malformed')
-        check_case(R, c, mt, 'malformed')
+        check_case(R, c, mt, 'malformed', gt)
     R.stream('malformed', cases=len(cases), exhaustive=False, bound='undo / redo on an empty stack (IndexError, nothing changes)')
+
+
+def stream_generated_raise(R, ncolors):
+    """commands whose do() raises, on the translated machine only (the hand model has no exceptions): AddData of something that is not a dataset"""
+    cases = []
+    for cfg in CONFIGS:
+        for prefix in ([], [('do', ('add', 0))], [('do', ('apply', E1, None, False)), ('undo',)]):
+            cases.append(dict(cfg, ops=prefix + [('do', ('add', -1))]))
+    outs = R.model([case_line(c, ncolors, gen=True) for c in cases])
+    for c, gt in zip(cases, outs):
+        R.count(case_key(c), nontrivial=False, stream='generated-raise')
+        check_case(R, c, None, 'generated-raise', gt)
+    R.stream('generated-raise', cases=len(cases), exhaustive=False,
+             bound='AddData of a non-dataset after 0..2 steps from the %d start configurations: TypeError on both sides' % len(CONFIGS))
 
 
 def run(R):
@@ -590,6 +705,12 @@ def run(R):
     stream_ladders(R, ncolors)
     stream_random(R, ncolors, command.MAX_UNDO)
     stream_exhaustive(R, ncolors)
+    stream_generated_raise(R, ncolors)
+    R.stream('generated', cases=getattr(R, '_c13_gen', 0), exhaustive=True,
+             bound='every case of the streams malformed, ladders, random and exhaustive is also run on the machine made of the functions translated from '
+                   'command.py / edit_subset_mode.py / data_collection.py (run_case tag 2) and compared step by step with the same run of the real code: '
+                   'collection, groups, members, selections, labels, colours, edit choice, both stacks, masks, plus the EditSubsetMessages of the step and '
+                   'what do() recorded on the command (old_groups, old_states, old_edit_subset, _added, _removed)')
     R.exhaustive = True
 
 
@@ -617,6 +738,11 @@ def replay(R, case):
         ms = model_steps(mt, c['pool'])
         out['model_agrees'] = len(ms) == len(steps) and all(
             'error' not in m and not compare(sn, m, [len(sn['gsubs'][g]) for g in sn['groups']]) for (sn, _), m in zip(steps, ms))
+        gt = R.model([case_line(c, ncolors, gen=True)])[0]
+        gs = gen_model_steps(gt, c['pool'])
+        out['translated_machine_agrees'] = len(gs) == len(steps) and all(
+            'error' not in m and 'raised' not in m and not compare(sn, m, [len(sn['gsubs'][g]) for g in sn['groups']], GEN_FIELDS)
+            for (sn, _), m in zip(steps, gs))
     out['violates'] = viol
     return out
 
